@@ -12,7 +12,8 @@
      close.flag_set          PC1       close(): flag swapped, stream tables not yet drained
      close.before_writer     PC2       tables drained, writer not yet locked for shutdown (PC2wait: queued)
      open.checked            PO0       open_stream: closed flag examined (it was clear), id not yet allocated
-     open.registered         PO1       open_stream: id allocated and registered, SYN not yet submitted
+     open.rx_registered      PO0b      open_stream: id allocated, inbound queue in stream_receive_tx, not yet in `streams`
+     open.registered         PO1       open_stream: registered in both tables, SYN not yet submitted
      pump.loop               PIdle of the pump task: top of the loop of process_stream_data
      (no point)              PPwait    the pump is inside `select!{notified(), recv()}` with an empty channel
 
@@ -66,6 +67,7 @@ Inductive pc :=
 | PE0 (a : after) (k : wk)
 | PC1 (a : after) (k : wk) | PC2 (a : after) (k : wk) | PC2wait (a : after) (k : wk)
 | PO0
+| PO0b (sid : N)
 | PO1 (sid : N)
 | PPwait.
 
@@ -92,7 +94,8 @@ Record state := {
   shut : bool;
   failing : bool;
   next_sid : N;
-  table : list (N * tid);           (* registered stream ids -> owner task *)
+  table : list (N * tid);           (* `streams`: registered stream ids -> owner task *)
+  rtable : list (N * tid);          (* `stream_receive_tx`: ids with an inbound queue -> owner task *)
   ralive : bool;                    (* recv_loop still running *)
   tasks : tid -> task;
   lin : list witem;
@@ -115,7 +118,7 @@ Definition upd (f : tid -> task) (t : tid) (v : task) : tid -> task :=
 Definition set_tasks (s : state) (ts : tid -> task) : state :=
   {| buffering := buffering s; pending := pending s; wr := wr s; waiters := waiters s; pkt := pkt s;
      wire := wire s; closed := closed s; shut := shut s; failing := failing s; next_sid := next_sid s;
-     table := table s; ralive := ralive s; tasks := ts; lin := lin s;
+     table := table s; rtable := rtable s; ralive := ralive s; tasks := ts; lin := lin s;
      dq := dq s; pushed := pushed s; pump_owner := pump_owner s; pump_done := pump_done s |}.
 Definition set_task (s : state) (t : tid) (v : task) : state := set_tasks s (upd (tasks s) t v).
 
@@ -153,7 +156,7 @@ Definition finish (s : state) (t : tid) (r : res) : state := set_task s t (with_
 Definition set_pump (s : state) (q pu : list witem) (o : option tid) (d : bool) : state :=
   {| buffering := buffering s; pending := pending s; wr := wr s; waiters := waiters s; pkt := pkt s;
      wire := wire s; closed := closed s; shut := shut s; failing := failing s; next_sid := next_sid s;
-     table := table s; ralive := ralive s; tasks := tasks s; lin := lin s;
+     table := table s; rtable := rtable s; ralive := ralive s; tasks := tasks s; lin := lin s;
      dq := q; pushed := pu; pump_owner := o; pump_done := d |}.
 Definition set_pump_done (s : state) : state := set_pump s (dq s) (pushed s) (pump_owner s) true.
 Definition set_dq (s : state) (q : list witem) : state := set_pump s q (pushed s) (pump_owner s) (pump_done s).
@@ -171,7 +174,7 @@ Definition finish_w (s : state) (t : tid) (k : wk) (r : res) : state :=
 Definition set_flags (s : state) (b c sh fl ra : bool) : state :=
   {| buffering := b; pending := pending s; wr := wr s; waiters := waiters s; pkt := pkt s;
      wire := wire s; closed := c; shut := sh; failing := fl; next_sid := next_sid s;
-     table := table s; ralive := ra; tasks := tasks s; lin := lin s;
+     table := table s; rtable := rtable s; ralive := ra; tasks := tasks s; lin := lin s;
      dq := dq s; pushed := pushed s; pump_owner := pump_owner s; pump_done := pump_done s |}.
 Definition set_buffering (s : state) (b : bool) := set_flags s b (closed s) (shut s) (failing s) (ralive s).
 Definition set_closed (s : state) := set_flags s (buffering s) true (shut s) (failing s) (ralive s).
@@ -182,22 +185,28 @@ Definition set_rdead (s : state) := set_flags s (buffering s) (closed s) (shut s
 Definition set_queue (s : state) (p : list witem) (l : list witem) : state :=
   {| buffering := buffering s; pending := p; wr := wr s; waiters := waiters s; pkt := pkt s;
      wire := wire s; closed := closed s; shut := shut s; failing := failing s; next_sid := next_sid s;
-     table := table s; ralive := ralive s; tasks := tasks s; lin := l;
+     table := table s; rtable := rtable s; ralive := ralive s; tasks := tasks s; lin := l;
      dq := dq s; pushed := pushed s; pump_owner := pump_owner s; pump_done := pump_done s |}.
 Definition set_lock (s : state) (w : option tid) (ws : list tid) : state :=
   {| buffering := buffering s; pending := pending s; wr := w; waiters := ws; pkt := pkt s;
      wire := wire s; closed := closed s; shut := shut s; failing := failing s; next_sid := next_sid s;
-     table := table s; ralive := ralive s; tasks := tasks s; lin := lin s;
+     table := table s; rtable := rtable s; ralive := ralive s; tasks := tasks s; lin := lin s;
      dq := dq s; pushed := pushed s; pump_owner := pump_owner s; pump_done := pump_done s |}.
 Definition set_wire (s : state) (k : N) (w : list (N * list witem)) : state :=
   {| buffering := buffering s; pending := pending s; wr := wr s; waiters := waiters s; pkt := k;
      wire := w; closed := closed s; shut := shut s; failing := failing s; next_sid := next_sid s;
-     table := table s; ralive := ralive s; tasks := tasks s; lin := lin s;
+     table := table s; rtable := rtable s; ralive := ralive s; tasks := tasks s; lin := lin s;
      dq := dq s; pushed := pushed s; pump_owner := pump_owner s; pump_done := pump_done s |}.
 Definition set_table (s : state) (n : N) (tb : list (N * tid)) : state :=
   {| buffering := buffering s; pending := pending s; wr := wr s; waiters := waiters s; pkt := pkt s;
      wire := wire s; closed := closed s; shut := shut s; failing := failing s; next_sid := n;
-     table := tb; ralive := ralive s; tasks := tasks s; lin := lin s;
+     table := tb; rtable := rtable s; ralive := ralive s; tasks := tasks s; lin := lin s;
+     dq := dq s; pushed := pushed s; pump_owner := pump_owner s; pump_done := pump_done s |}.
+
+Definition set_rtable (s : state) (n : N) (rtb : list (N * tid)) : state :=
+  {| buffering := buffering s; pending := pending s; wr := wr s; waiters := waiters s; pkt := pkt s;
+     wire := wire s; closed := closed s; shut := shut s; failing := failing s; next_sid := n;
+     table := table s; rtable := rtb; ralive := ralive s; tasks := tasks s; lin := lin s;
      dq := dq s; pushed := pushed s; pump_owner := pump_owner s; pump_done := pump_done s |}.
 
 (* ---- close(): what the finished close returns into ---- *)
@@ -247,6 +256,12 @@ Fixpoint mark_sclosed (tb : list (N * tid)) (ts : tid -> task) : tid -> task :=
   end.
 Definition mark_state (s : state) : state := set_tasks s (mark_sclosed (table s) (tasks s)).
 
+(* close() drains `streams` and removes each drained id from `stream_receive_tx` (ids are handed out once, so removing
+   the id and removing the pair (id, owner) coincide) *)
+Definition pair_eqb (a b : N * tid) : bool := N.eqb (fst a) (fst b) && Nat.eqb (snd a) (snd b).
+Definition minus_pairs (l d : list (N * tid)) : list (N * tid) :=
+  filter (fun e => negb (existsb (pair_eqb e) d)) l.
+
 Fixpoint lookup_owner (tb : list (N * tid)) (o : tid) : option N :=
   match tb with
   | [] => None
@@ -271,16 +286,18 @@ Definition feed_ev (s : state) (ev : inev) : state :=
       | None => s
       end
   | InPush o =>
-      match lookup_owner (table s) o with
+      match lookup_owner (rtable s) o with
       | Some _ => let x := tasks s o in set_task s o (with_rq x (S (t_rq x)) (t_rclosed x))
       | None => s
       end
   | InFin o =>
-      match lookup_owner (table s) o with
+      (* both maps drop the id; dropping the inbound queue's sender is what the reader sees as end-of-stream *)
+      match lookup_owner (rtable s) o with
       | Some _ =>
           let x := tasks s o in
-          set_table (set_task s o (with_rq x (t_rq x) true)) (next_sid s) (remove_owner (table s) o)
-      | None => s
+          set_rtable (set_table (set_task s o (with_rq x (t_rq x) true)) (next_sid s) (remove_owner (table s) o))
+                     (next_sid s) (remove_owner (rtable s) o)
+      | None => set_table s (next_sid s) (remove_owner (table s) o)
       end
   | InAlert =>
       if pc_is_idle (t_pc (tasks s rtid)) then enter_close (mark_state s) rtid AfterRecv WkPlain else s
@@ -295,6 +312,11 @@ Definition psh_frame (sid : N) (d : bytes) : frame := {| fcmd := Push; fsid := s
 
 Definition sub_if_pump (k : wk) (x : task) (f : frame) : task :=
   match k with WkPump => with_sub x f | _ => x end.
+
+(* the drain of close(): every stream in `streams` is released and forgotten, and its id leaves `stream_receive_tx` *)
+Definition drain_state (s : state) : state :=
+  set_rtable (set_table (set_tasks s (drain (table s) (tasks s))) (next_sid s) [])
+             (next_sid s) (minus_pairs (rtable s) (table s)).
 
 Definition is_ppwait (p : pc) : bool := match p with PPwait => true | _ => false end.
 
@@ -416,7 +438,7 @@ Definition step (s : state) (t : tid) : option state :=
   | PC1 a k =>
       (* notify_waiters(), then the drain of both tables *)
       let s1 := wake_pump_closed s in
-      Some (set_pc (set_table (set_tasks s1 (drain (table s1) (tasks s1))) (next_sid s1) []) t (PC2 a k))
+      Some (set_pc (drain_state s1) t (PC2 a k))
   | PC2 a k =>
       match wr s with
       | None => Some (finish_close (set_shut s) t a k)
@@ -426,8 +448,11 @@ Definition step (s : state) (t : tid) : option state :=
   | PO0 =>
       (* the closed flag is NOT examined again: close() may have run (and drained the tables) since the check *)
       let sid := next_sid s in
-      let s1 := set_table s (sid + 1) (table s ++ [(sid, t)]) in
-      Some (set_task s1 t (with_pc (with_sid x sid) (PO1 sid)))
+      let s1 := set_rtable s (sid + 1) (rtable s ++ [(sid, t)]) in
+      Some (set_task s1 t (with_pc (with_sid x sid) (PO0b sid)))
+  | PO0b sid =>
+      (* the second table: two separate lock acquisitions in the code *)
+      Some (set_task (set_table s (next_sid s) (table s ++ [(sid, t)])) t (with_pc x (PO1 sid)))
   | PO1 sid => Some (set_task s t (with_pc (with_sub x (syn_frame sid)) (PW0 WkOpen (syn_frame sid))))
   | PPwait => None
   end.
@@ -440,7 +465,7 @@ Definition run (s : state) (sched : list tid) : state := fold_left step_or_skip 
 Definition init (progs : list (list call)) (buf : bool) (pend : list witem) : state :=
   {| buffering := buf; pending := pend; wr := None; waiters := []; pkt := client_pkt_start;
      wire := []; closed := false; shut := false; failing := false;
-     next_sid := client_first_stream_id; table := []; ralive := true;
+     next_sid := client_first_stream_id; table := []; rtable := []; ralive := true;
      tasks := fun t => idle_task (nth t progs []); lin := pend;
      dq := []; pushed := []; pump_owner := None; pump_done := false |}.
 
